@@ -4,6 +4,8 @@ package main
 
 import (
 	"fmt"
+	"go/token"
+	"go/types"
 	"sort"
 	"strings"
 
@@ -151,4 +153,30 @@ func (fv *FuncVC) bindFreeVars(env *Env, st *State) {
 		env.vars["&"+f.Name()] = pv
 		env.vars[f.Name()] = fv.loadPlace(st, fv.placeFromPointer(pv))
 	}
+}
+
+// callFunctionValue performs a call of a statically known closure (no arguments) from a primitive such
+// as sync.Once.Do: its contract if it has one, otherwise havoc of its inferred write set.
+func (fv *FuncVC) callFunctionValue(callee *ssa.Function, binds []*Val, pos token.Pos) {
+	key := funcKey(callee)
+	fv.callOrd[key]++
+	if con, ok := fv.g.spec.Contracts[key]; ok {
+		var resT types.Type = callee.Signature.Results()
+		if callee.Signature.Results().Len() == 1 {
+			resT = callee.Signature.Results().At(0).Type()
+		}
+		fv.applyContract(con, callee, nil, nil, binds, resT, key, fv.callOrd[key], pos)
+		return
+	}
+	fv.uncontracted[key] = true
+	fv.havocMod(fv.g.modOf(callee), nil)
+}
+
+func (fv *FuncVC) noteLockID(id string) {
+	for _, x := range fv.lockIDs {
+		if x == id {
+			return
+		}
+	}
+	fv.lockIDs = append(fv.lockIDs, id)
 }
